@@ -391,7 +391,7 @@ pub fn run_script(s: &Script) -> Option<Vec<Value>> {
 }
 
 pub fn run_script_retry(s: &Script) -> Vec<Value> {
-    for _ in 0..20 {
+    for _ in 0..60 {
         if let Some(v) = run_script(s) {
             return v;
         }
